@@ -512,4 +512,21 @@ def concDiskGetSet (fs : Fs) (key : Nat) (w : Write) : Fs × DiskOut :=
   | some _ => diskGetSet fs key (.cutAfter [])
   | none => diskGetSet fs key w
 
+/-! ### OpenmlSource.read: permit accounting of the shared download semaphore -/
+
+structure SemTrace where
+  acquires : Nat
+  releases : Nat
+  deriving DecidableEq, Repr
+
+/-- `OpenmlSource.read` with respect to `CobaContext.store['openml_semaphore']`: `hasSem` – a semaphore is
+installed; `cached1` – `_source_already_cached()` at the first check; `cached2` – at the re-check after
+`acquire()` returned (a peer may have cached everything meanwhile).  The `finally:` of the generator runs
+however the read ends (exhausted, raising, abandoned and closed), so the body outcome does not matter. -/
+def openmlSem (hasSem cached1 cached2 : Bool) : SemTrace :=
+  let needs := hasSem && !cached1
+  let early := needs && cached2            -- `openml_semaphore.release()` right after the re-check
+  let flag := needs && !cached2            -- `semaphore_acquired = True`, released in `finally`
+  { acquires := if needs then 1 else 0, releases := (if early then 1 else 0) + (if flag then 1 else 0) }
+
 end Coba.C19
